@@ -422,7 +422,7 @@ def explore(world, prognames, rec):
         rec.count("stale_data_errors", stats["stale"])
         rec.count("environment_errors", stats["env"])
         rec.count("successful_flushes", stats["flush_ok"])
-        if nontriv:
+        if stats["stale"] > 0 and stats["commits_with_write"] > 0:
             rec.sample(dict(generator=world.gen, txn_mode=world.mode, programs=list(prognames), schedule=" ".join(trace)), limit=2)
         for kind, msg in problems:
             sched = _sched_of(trace)
